@@ -169,6 +169,8 @@ def parseArgv (T : Table) (argv : List Str) : List Report × Nat :=
 
 def NulFree (s : Str) : Prop := ∀ b ∈ s, b ≠ 0
 
+instance (s : Str) : Decidable (NulFree s) := by unfold NulFree; infer_instance
+
 /-- `-X` with `X ≠ '-'`, or `--foo` with a non-empty `foo` (what `getopt_register_opt` insists on). -/
 def ValidName (n : Str) : Prop :=
   (∃ c, n = [dash, c] ∧ c ≠ dash) ∨ (∃ c cs, n = dash :: dash :: c :: cs)
